@@ -512,6 +512,37 @@ def _fqp_env(ctx, path, modname, d, top=None):
     return it, fs, W
 
 
+class FQPInvContract:
+    """FQP.inv at a call site inside the class (x / y = x * y.inv()):  returns a valid element R of type(self) with
+    R = 0 if self = 0 and R * self = 1 in (Z/p)[W]/(M) otherwise — proved for every degree pair by the units *.FQP.inv.* /
+    *.FQ2.inv.  The case distinction is a ghost fork: both branches together are exactly the postcondition of inv."""
+
+    def __init__(self, fs, W, fq_coeffs=False):
+        self.fs, self.W, self.fq_coeffs = fs, W, fq_coeffs
+        self.last = None
+
+    def apply(self, interp, fv, env):
+        path = cur()
+        fs = self.fs
+        y = env["self"]
+        if not (isinstance(y, Obj) and y.cls.is_subclass(fs.GX)):
+            raise Unsupported("FQP.inv contract on a receiver that is not an element of the class")
+        k = next(path.fresh_id)
+        r = fs.sym_fqp(f"inv{k}_", self.fq_coeffs)
+        Y = fqp_poly(y, self.W, fs.K)
+        Rp = fqp_poly(r, self.W, fs.K)
+        g = fsym(f"ghost_inv_case{k}", fs.K)
+        if path.case(eqz(g), "inv: receiver = 0?"):
+            for c in y.attrs["coeffs"]:
+                path.assume(eqz(coeff_abs(c, fs.K)), "inv contract, case self = 0")
+            for c in r.attrs["coeffs"]:
+                path.assume(eqz(coeff_abs(c, fs.K)), "inv contract, case self = 0: inv(0) = 0")
+        else:
+            path.assume(eqz(Rp * Y, fs.K(1)), "inv contract, case self != 0: inv(self) * self = 1 in (Z/p)[W]/(M)")
+        self.last = (r, Rp)
+        return r
+
+
 def u_fqp_linear(ctx, modname, d, fq_coeffs=False):
     base = f"{modname}.FQP"
 
@@ -534,6 +565,11 @@ def u_fqp_linear(ctx, modname, d, fq_coeffs=False):
             elif operand == "none":
                 y = None
             args = [] if operand == "unary" else [y]
+            invc = None
+            if operand == "same" and meth in ("__div__", "__truediv__"):
+                # modular: inv enters through its contract (proved by the inv units), * and == are the real code
+                invc = FQPInvContract(fs, W, fq_coeffs)
+                it.cfg.contracts[f"{modname}.FQP.inv"] = invc
             k, res = call_method(it, x, meth, args)
             accepted = ACCEPT.get((modname, meth), ())
             if operand != "unary" and operand not in accepted:
@@ -559,6 +595,25 @@ def u_fqp_linear(ctx, modname, d, fq_coeffs=False):
                             differs = True
                     path.prove(f"{name}/ensures.iff", differs, detail="declared different: some coefficient provably differs")
                 return
+            if invc is not None:
+                # x / y = x * inv(y) for the element inv(y) that the contract of inv describes: with it, (x / y) * y = x for y != 0
+                # and x / 0 = 0.  If the code did not call inv at all, the quotient must still satisfy both clauses.
+                if invc.last is not None:
+                    want = A * invc.last[1]
+                    check_fqp_result(path, name + f"[{operand}]", fs, W, res, want, quotient=True)
+                else:
+                    ok = isinstance(res, Obj) and res.cls is fs.GX
+                    path.prove(f"{name}[{operand}]/ensures.type", ok)
+                    if ok:
+                        Q = fqp_poly(res, W, fs.K)
+                        g = fsym("ghost_div_case", fs.K)
+                        if path.case(eqz(g), "divisor = 0?"):
+                            for c in y.attrs["coeffs"]:
+                                path.assume(eqz(coeff_abs(c, fs.K)), "case divisor = 0")
+                            path.prove(f"{name}[{operand}]/ensures.abs", eqz(Q), detail="x / 0 = 0 (inv0 convention)")
+                        else:
+                            path.prove(f"{name}[{operand}]/ensures.abs", eqz(Q * B, A), detail="(x / y) * y = x in (Z/p)[W]/(M)")
+                return
             want = {"__add__": lambda: A + B, "__sub__": lambda: A - B, "__neg__": lambda: -A,
                     "__mul__": lambda: A * B, "__rmul__": lambda: A * B,
                     "__div__": lambda: A / B, "__truediv__": lambda: A / B}[meth]()
@@ -573,7 +628,7 @@ def u_fqp_linear(ctx, modname, d, fq_coeffs=False):
         for operand in ("same", "int", "fq", "none"):
             run(meth, operand)
     for meth in ("__div__", "__truediv__"):
-        for operand in ("int", "fq", "none"):
+        for operand in ("same", "int", "fq", "none"):
             run(meth, operand)
     for meth in ("__eq__", "__ne__"):
         for operand in ("same", "int"):
